@@ -576,6 +576,15 @@ func (x *Evaluator) evalKnown(callee *ssa.Function, call *ssa.Call, idx int, e *
 	case "(*strings.Builder).String__placeholder":
 		return nil, false
 	}
+	// a copy of a list holds what the list holds
+	if (strings.HasPrefix(full, "slices.Clone[") || strings.HasPrefix(full, "slices.Clip[") || strings.HasPrefix(full, "slices.Grow[")) && len(args) >= 1 {
+		v := x.evalC(args[0], e, c)
+		if l, ok := v.(ListV); ok && l.IsFinite {
+			l.ID = 0 // a list of its own: in-place rewrites of the copy do not reach the original
+			return l, true
+		}
+		return v, true
+	}
 	if strings.HasPrefix(full, "slices.Contains[") && len(args) == 2 {
 		// membership of a constant in a constant list (a table of admissible operators)
 		if l, ok := x.evalC(args[0], e, c).(ListV); ok && l.IsFinite {
